@@ -45,17 +45,25 @@ func runSegment(dir string, cap int, tab [][]string, ops []fsd.Op) segOut {
 		}
 	})
 	defer verifhook.Set(nil)
+	// s is the store object under test. The harness never walks it and never lists through it at a
+	// reopen point: its own views come from separate, freshly constructed store objects (a store that
+	// initialises something lazily must not be "warmed up" by the checker before the history's own
+	// first visit / retention pass).
 	s := fsd.Open(dir, cap, tab)
-	out.Start = s.State() + "/" + s.Visit()
+	fresh := func() string {
+		f := fsd.Open(dir, s.Cap, fsd.CopyTab(s.Tab))
+		return f.State() + "/" + f.Visit()
+	}
+	out.Start = fresh()
 	out.Live = "1"
 	for i, o := range ops {
 		if o.Kind == "R" || o.Kind == "C" {
-			before := s.State() + "/" + s.Visit()
+			before := fresh()
 			if o.Kind == "C" {
 				s.Cap = o.Rep
 			}
 			s.Reopen()
-			after := s.State() + "/" + s.Visit()
+			after := fresh()
 			out.Res = append(out.Res, "-")
 			out.Cks = append(out.Cks, after)
 			out.Same = append(out.Same, vh.B(before == after))
@@ -63,14 +71,15 @@ func runSegment(dir string, cap int, tab [][]string, ops []fsd.Op) segOut {
 		}
 		out.Res = append(out.Res, s.Do(o))
 		// what a freshly constructed store reads from the disk = what the live store object answers
+		// (by-name listings only on the live object: its visit is observed by the history's own v operations)
 		if out.Live == "1" {
-			fresh := fsd.Open(dir, s.Cap, fsd.CopyTab(s.Tab))
-			if fresh.State()+"/"+fresh.Visit() != s.State()+"/"+s.Visit() {
+			f := fsd.Open(dir, s.Cap, fsd.CopyTab(s.Tab))
+			if f.State() != s.State() {
 				out.Live = fmt.Sprintf("0@%d", i)
 			}
 		}
 	}
-	out.End = s.State() + "/" + s.Visit()
+	out.End = fresh()
 	out.Tab = s.Tab
 	out.Reissued = s.Reissued
 	out.Cap = s.Cap
